@@ -632,10 +632,14 @@ def run_plan(prop, plan):
                                 T.pop(p, None)
                         else:
                             was = p in T
-                            if report(h, p) and k == "created":
+                            if report(h, p) and (k == "created" or not was):
+                                # (a file first heard of through a modification - its creation event was lost - is
+                                #  newly reported all the same: the limits must hold once it has been handled)
                                 created_now = p
                                 if was:
                                     res.fault("duplicate_creation_event")
+                                elif k != "created":
+                                    res.probe("first_report_is_a_modification")
                     h.dispatch(e)
                 elif s == "rescan_existing":
                     begin_batch(digital_rf.list_drf.lsdrf(root, include_drf_properties=False, include_dmd_properties=False))
